@@ -19,7 +19,7 @@ def splice_bsync(src, out):
 
 CHECK = dict(
     pkgs=["core/consensus/qbft", "core/qbft"],
-    files={"core/consensus/qbft": ["zz_verif_c04_test.go"], "core/qbft": ["zz_verif_c02_test.go", "zz_verif_hook.go"]},
+    files={"core/consensus/qbft": ["zz_verif_c04_test.go", "zz_verif_c04comp_test.go", "zz_verif_c05_test.go", "zz_verif_c05x_test.go"], "core/qbft": ["zz_verif_c02_test.go", "zz_verif_hook.go"]},
     libs=["enumx", "bsync"],
     splice={"core/qbft/qbft.go": splice_qbft, "app/k1util/k1util.go": splice_k1memo,
             "core/consensus/timer/roundtimer.go": splice_bsync, "core/consensus/qbft/qbft.go": splice_bsync,
